@@ -2,13 +2,13 @@ SPECIFICATION Spec
 CONSTANTS
   Acc = {"a1", "a2"}
   Null = "0"
-  Kinds <- K3
+  Kinds <- K2
   BatchSize = 3
   MaxBlocks = 4
-  MaxXfers = 6
-  MaxPerBlock = 3
-  Replica <- R2
-  DiskBackend <- R2
+  MaxXfers = 5
+  MaxPerBlock = 2
+  Replica <- R1
+  DiskBackend <- R1
   GCReplica <- R1
   MTB = 1
   DevMemSeekExclusive = FALSE
